@@ -43,7 +43,7 @@ def _eq_hook(a, b):
 class World:
     """one inference problem: model (param_list, state_list), user's Parameter list, scripted proposals and cost"""
 
-    def __init__(self, name, model_params, model_states, user, target, what="", constraint=None):
+    def __init__(self, name, model_params, model_states, user, target, what="", constraint=None, cost_offset=0.0):
         # user: [(name, low, high, logscale)] in the order the user lists them
         self.name, self.what = name, what
         self.model_params, self.model_states, self.user = list(model_params), list(model_states), list(user)
@@ -55,6 +55,7 @@ class World:
         self.choice_k = 0
         self.trace = []                         # proposals handed out (user order, sampling scale)
         self.qlog = []                          # np.quantile calls: (length, q, result)
+        self.cost_offset = cost_offset          # costs are distances minus this (a negative log-likelihood can be negative)
         self.constraint = constraint            # (population size, name of the state adjusted to conserve it) or None
         self.x0_seen = None                     # initial state vector the last cost was computed from
 
@@ -127,7 +128,7 @@ class World:
         return out
 
     def cost_of(self, vec):
-        return sum((j + 1) * abs(v - self.target[n]) for j, (n, v) in enumerate(zip(self.loss_order(), vec)))
+        return sum((j + 1) * abs(v - self.target[n]) for j, (n, v) in enumerate(zip(self.loss_order(), vec))) - self.cost_offset
 
 
 def worlds():
@@ -140,6 +141,9 @@ def worlds():
               what="two of three model parameters inferred, the log-scale one listed first, no initial states"),
         World("single", ["k"], ["A", "B"], [("k", 0.05, 4.0, False)], {"k": 1.5}, what="a single parameter"),
         World("single-log", ["k"], ["A", "B"], [("k", -1.0, 0.75, True)], {"k": 2.0}, what="a single parameter on the log10 scale"),
+        World("negative-costs", ["beta", "gamma", "mu"], ["S", "I", "R"],
+              [("gamma", -1.5, 0.25, True), ("beta", 0.125, 3.0, False)], {"beta": 0.75, "gamma": 1.0}, cost_offset=3.0,
+              what="the cost is a negative log-likelihood that is negative near the optimum"),
         World("constrained-first-state", ["beta", "gamma"], ["S", "I", "R"],
               [("I", 0.0, 10.0, False), ("beta", 0.0, 2.0, False)], {"beta": 0.5, "I": 4.0}, constraint=(100.0, "S"),
               what="an initial state is inferred and the population size is conserved by adjusting the first state"),
@@ -223,6 +227,12 @@ def build(repo, w, constraint=None):
         rows = x.tolist() if isinstance(x, NumArr) else list(x)
         m = mean.tolist() if isinstance(mean, NumArr) else list(mean)
         return NumArr([0.05 * (r + 1) + 0.01 * abs(sum(m)) for r in range(len(rows))])
+    class _FInfo:
+        _abs_native = True
+        eps, tiny, max, min = 2.220446049250313e-16, 2.2250738585072014e-308, 1.7976931348623157e+308, -1.7976931348623157e+308
+    summ["np.finfo"] = lambda *a, **k: _FInfo()
+    summ["max"] = lambda *a, **k: (max(a) if len(a) > 1 else max(a[0]))
+    summ["min"] = lambda *a, **k: (min(a) if len(a) > 1 else min(a[0]))
     summ.update({
         "Parameter.random_sample": random_sample, "Parameter.density": density,
         "Loss._setParam": set_param, "Loss._setParamStateInput": set_param, "Loss.cost": cost, "Model.get_state_index": state_index,
